@@ -29,6 +29,7 @@ import XotModel.Lemmas.Scope10
 import XotModel.Lemmas.TraceInv
 import XotModel.Lemmas.RepairDoc
 import XotModel.Lemmas.RepairFuel
+import XotModel.Lemmas.RepairKeepTop
 
 namespace XotModel.Props
 open XotModel
@@ -681,6 +682,107 @@ example : (freshPrefix [2, 3, 4] 4 ⟨[], [[], ['x'], ['n','0'], ['n','2'], ['n'
 example : createMissingPrefixes ⟨[], [], []⟩ (.node (.text ['x']) []) [] = .err .notElement := rfl
 example : createMissingPrefixes ⟨[], [], []⟩ (.node .document [.node (.text ['x']) []]) [] =
     .err .noElementAtTopLevel := rfl
+
+/-! ### Descendants' declarations and the bindings in force are kept
+
+Raw child indices shift when namespace nodes are inserted, so nodes are identified by their position
+in document order among the nodes that are not namespace nodes: `nodesBelow F E` lists the nodes
+below `E` in that order, each with the declaration frames in force at it — its own declarations (an
+element) or nothing (another node) first, then those of its ancestors up to `E`, then `F`.  Here
+`F = [inheritedDecls t path]`: what the repaired element inherits (`namespaces_in_scope(parent)`,
+or the `xml` binding for a parentless element). -/
+
+/-- DESCENDANTS' DECLARATIONS: the call inserts namespace nodes only (same number of other nodes
+    below the repaired element, each with its value), and the declaration list of every node other
+    than the repaired element is its list before — except that an element in no namespace at which
+    (frames around it AFTER the call, plus its own declarations) the empty prefix is bound to a
+    namespace gets `insert("", no namespace)` (`insertDecl`: its own `xmlns="…"` is overwritten in
+    place, otherwise `xmlns=""` is appended), and exactly then. -/
+theorem C10_repair_keeps_declarations (env : Env) (hok : EnvOk env) (t : Tree) (path : Path) (name : Nat)
+    (ks : List Tree) (hat : t.at? path = some (.node (.element name) ks))
+    (hu : UniqueBelow (.node (.element name) ks)) (env' : Env) (t' : Tree)
+    (h : createMissingPrefixes env t path = .ok (env', t')) :
+    ∃ E', t'.at? path = some E' ∧ E'.value = .element name ∧
+      (nodesBelow [inheritedDecls t path] (.node (.element name) ks)).length =
+        (nodesBelow [inheritedDecls t path] E').length ∧
+      ∀ (k : Nat) (b a : Frames × Tree),
+        (nodesBelow [inheritedDecls t path] (.node (.element name) ks))[k]? = some b →
+        (nodesBelow [inheritedDecls t path] E')[k]? = some a →
+        a.2.value = b.2.value ∧
+        ((NeedsUndeclaration env.nsOfName a.1.tail b.2 ∧
+            a.2.nsDecls = insertDecl Env.emptyPrefix Env.noNamespace b.2.nsDecls) ∨
+          (¬ NeedsUndeclaration env.nsOfName a.1.tail b.2 ∧ a.2.nsDecls = b.2.nsDecls)) := by
+  rw [C10_repair_element env t path name ks hat] at h
+  obtain ⟨E', h1, h2, _, h4⟩ := facts_kept hat hu (repairElement_facts env hok t path name ks hat hu env' t' h)
+  obtain ⟨hl, hall⟩ := allPairs_iff_getElem.mp h4
+  exact ⟨E', h1, h2, hl, fun k b a hb ha => ⟨(hall k b a hb ha).1, (hall k b a hb ha).2.1⟩⟩
+
+/-- BINDINGS: at the repaired element and at every node below it, every binding of a non-empty prefix
+    in force before the call is in force after it (same prefix, same namespace), and the empty
+    prefix means what it meant or — below an element in no namespace that got `xmlns=""` — a default
+    namespace has become "no namespace" (`BindingsKept`).  Nothing else is overridden: the prefixes
+    the call adds are bound nowhere in scope and declared nowhere in the subtree
+    (`C10_repair_fresh_prefixes`). -/
+theorem C10_repair_keeps_bindings (env : Env) (hok : EnvOk env) (t : Tree) (path : Path) (name : Nat)
+    (ks : List Tree) (hat : t.at? path = some (.node (.element name) ks))
+    (hu : UniqueBelow (.node (.element name) ks)) (env' : Env) (t' : Tree)
+    (h : createMissingPrefixes env t path = .ok (env', t')) :
+    ∃ E', t'.at? path = some E' ∧
+      BindingsKept ((Tree.node (.element name) ks).nsDecls :: [inheritedDecls t path])
+        (E'.nsDecls :: [inheritedDecls t path]) ∧
+      ∀ (k : Nat) (b a : Frames × Tree),
+        (nodesBelow [inheritedDecls t path] (.node (.element name) ks))[k]? = some b →
+        (nodesBelow [inheritedDecls t path] E')[k]? = some a → BindingsKept b.1 a.1 := by
+  rw [C10_repair_element env t path name ks hat] at h
+  obtain ⟨E', h1, _, h3, h4⟩ := facts_kept hat hu (repairElement_facts env hok t path name ks hat hu env' t' h)
+  exact ⟨E', h1, h3, fun k b a hb ha => ((allPairs_iff_getElem.mp h4).2 k b a hb ha).2.2⟩
+
+/-- What `BindingsKept` means for names: a prefixed element name, and every attribute name, that
+    resolved to a namespace before resolves — written with the SAME prefix — to the same namespace
+    after; an unprefixed element name resolves to the same namespace or to no namespace. -/
+theorem C10_repair_keeps_resolution (fb fa : Frames) (hk : BindingsKept fb fa) :
+    (∀ p ns, p ≠ Env.emptyPrefix → resolveElementName fb (some p) = some ns →
+      resolveElementName fa (some p) = some ns) ∧
+    (∀ pfx ns, pfx ≠ some Env.emptyPrefix → resolveAttributeName fb pfx = some ns →
+      resolveAttributeName fa pfx = some ns) ∧
+    (resolveElementName fa none = resolveElementName fb none ∨
+      resolveElementName fa none = some Env.noNamespace) := by
+  have hp : ∀ p ns, p ≠ Env.emptyPrefix → resolvePrefix fb p = some ns → resolvePrefix fa p = some ns := by
+    intro p ns hpe hr
+    unfold resolvePrefix at hr ⊢
+    split
+    · rename_i hx; simpa [hx] using hr
+    · rename_i hx; simp only [hx] at hr; exact hk.1 p hpe ns hr
+  refine ⟨fun p ns hpe hr => hp p ns hpe hr, fun pfx ns hpe hr => ?_, ?_⟩
+  · cases pfx with
+    | none => exact hr
+    | some p => exact hp p ns (fun h => hpe (by rw [h])) hr
+  · simp only [resolveElementName]
+    rcases hk.2 with h | ⟨h, _⟩
+    · left; rw [h]
+    · right; rw [h]; rfl
+
+/-- Non-vacuity, and the one binding the call does change: `<a xmlns="u"><b><c/></b><d xmlns:p="v"/></a>`
+    with `a`, `c` in namespace `u` (id 2), `b`, `d` in none.  `b` and `d` get `xmlns=""` (appended after
+    `d`'s own declaration), so below `b` the empty prefix no longer means `u`; `c`, which was written
+    unprefixed, is now written with the new prefix `n0` (id 3) declared on `a`.  The declarations of
+    `c` are untouched and the binding of `p` (id 2) at `d` is kept.  Listed per node below `a`:
+    declarations; binding of the empty prefix; binding of `p`. -/
+example :
+    let env : Env := ⟨[[], ['x'], ['u'], ['v']], [[], ['x','m','l'], ['p']],
+      [(['a'], 2), (['b'], 0), (['c'], 2), (['d'], 0)]⟩
+    let E : Tree := .node (.element 0) [.node (.namespace 0 2) [],
+      .node (.element 1) [.node (.element 2) []], .node (.element 3) [.node (.namespace 2 3) []]]
+    ((nodesBelow [basePrefixes] E).map (fun x => x.2.nsDecls) = [[], [], [(2, 3)]] ∧
+      (nodesBelow [basePrefixes] E).map (fun x => lookupFrames x.1 0) = [some 2, some 2, some 2] ∧
+      (nodesBelow [basePrefixes] E).map (fun x => lookupFrames x.1 2) = [none, none, some 3]) ∧
+    (match createMissingPrefixes env E [] with
+      | .ok (_, E') => decide (
+        E'.nsDecls = [(0, 2), (3, 2)] ∧
+        (nodesBelow [basePrefixes] E').map (fun x => x.2.nsDecls) = [[(0, 0)], [], [(2, 3), (0, 0)]] ∧
+        (nodesBelow [basePrefixes] E').map (fun x => lookupFrames x.1 0) = [some 0, some 0, some 0] ∧
+        (nodesBelow [basePrefixes] E').map (fun x => lookupFrames x.1 2) = [none, none, some 3])
+      | _ => false) = true := by decide
 
 end Repair
 
